@@ -11,18 +11,20 @@ Deductive part:
                           state of all variables it may modify), diagnostics['converged'] = True implies that every
                           entry strictly below the diagonal of the returned T has modulus <= tol; the returned Q is
                           P0^H Q_accum and T is the final iterate; guards; n = 0.
-  iteration               quaternion_schur_pure, quaternion_schur_pure_implicit, quaternion_schur_unified (aed, ds; scheduled and trailing
-                          shifts) and quaternion_schur_experimental (aed_windowed, francis_ds): the whole iteration, every n, budget, shift
-                          and exit: matrix-level loop invariants in the free algebra (Q_accum unitary; Q_accum^H (P0 A P0^H) Q_accum - H = D,
-                          where D collects the rotated deflation zeroings; inner sweep: Q_iter unitary, R_work = Q_iter (H - sigma I),
-                          resp. H = W H_s W^H, Q_accum = Q_s W^H; the in-place row / column kernels by their rows.spec / cols.spec
-                          contracts), the shift loops of the pure variant entering through closed forms that are discharged at index
-                          level (entry_loops: shift subtraction / addition, deflation test and running maximum as ghost functions).
+  iteration               ALL FIVE variants through their whole iteration, every n, budget, shift and exit - quaternion_schur_pure,
+                          quaternion_schur_pure_implicit, quaternion_schur_unified (aed, ds; scheduled and trailing shifts),
+                          quaternion_schur_experimental (aed_windowed, francis_ds) and the real-expansion variant quaternion_schur
+                          (rayleigh, wilkinson, double): matrix-level loop invariants in the free algebra (Q_accum unitary;
+                          Q_accum^H (P0 A P0^H) Q_accum - H = D, where D collects the rotated deflation / clean-up zeroings; inner sweeps:
+                          Q_iter unitary, R_work = Q_iter (H - sigma I), resp. H = W H_s W^H, Q_accum = Q_s W^H, resp. for the real
+                          4n x 4n representation HRs = real_expand(W^H X W), Qk = real_expand(W)); the in-place row / column kernels by
+                          their rows.spec / cols.spec contracts, the 8 x 8 real block updates through C02's homomorphism and the layout
+                          obligation P8^T Realp(M) P8 = real_expand(M) (P8.layout, index level, real code on symbolic components);
+                          the shift loops of the pure variant enter through closed forms discharged at index level (entry_loops).
                           Result: Q unitary and Q^H A Q - T = D exactly on every exit; that every zeroed entry is below the deflation
-                          test is proved at index level for the two pure variants and sampled for the windowed ones.
-The loop body of the real-expansion variant quaternion_schur (4n x 4n real arithmetic, nested single-shift routine) is outside the engine's
-reach: that its iterate stays unitarily similar to A is decided by the bounded stand-in, which runs every variant x shift x budget
-(0, 1, 2, 5, default) on n <= 5 (6) matrix classes."""
+                          test is proved at index level for the two pure variants and sampled for the others.
+Convergence (that the budget suffices, which shifts work) is not a contract-level property; the bounded stand-in runs every variant x shift x
+budget (0, 1, 2, 5, default) on n <= 5 (6) matrix classes."""
 from __future__ import annotations
 
 import ast
@@ -688,6 +690,7 @@ def pure_iteration(rep: Report):
             c.assume(L >= 0)
             fr.vars["diag"] = {"iterations": SymList(L, "iterations"), "converged": False, "iterations_run": 0}
             g.pop("E_step", None)
+            g["main_kind"] = g.get("_havoc_kind")
             g["Qi_exit"] = None
             if "hi" in self.modifies:
                 hi = SInt.var(c.fresh_name("hi"))
@@ -870,10 +873,10 @@ def pure_iteration(rep: Report):
             s1 = ncm.nc_equal_obligation(Q.p.star @ Q.p, NC.eye(n), c.hyps())[0]
             out.append(("Q_is_unitary", s1, "normal-form", 0.0, None))
             # which discrepancy belongs to this exit: loop ran to completion -> D of the head state; break inside a pass -> D after that pass
-            if g.get("phase") == "generic":
+            if g.get("main_kind") == "generic":
                 Qi, E, D0 = g.get("Qi_exit") or HMat(NC.eye(n)), g.get("E_step") or HMat(NC.zero(n, n)), g.get("D")
                 D = HMat(combine(D0, E, Qi)) if D0 is not None else None
-            elif g.get("phase") == "exhausted":
+            elif g.get("main_kind") == "exhausted":
                 D = g.get("D")
             else:
                 D = g.get("D_entry")        # n such that the loop is never entered cannot happen (max_iter >= 0 symbolic): kept for completeness
@@ -1038,6 +1041,588 @@ def pure_entry_loops(rep: Report):
                  loop_end=True, max_paths=600)
 
 
+# ---------------------------------------------------------------------------------------------------
+# the real-expansion variant quaternion_schur: the whole iteration at matrix level
+def real_expansion_iteration(rep: Report):
+    """quaternion_schur works on the 4n x 4n real representation HR = real_expand(H) and rotates it by 8 x 8 blocks  P8^T G^(T) P8  built from
+    ggivens.  Facts used, each discharged elsewhere:  real_expand is a *-homomorphism with real_contract its inverse on its image (C02);
+    ggivens returns the component-blocked embedding G = Realp(M) of a unitary 2 x 2 quaternion matrix M, G^T = Realp(M^H) (C16, C02);
+    P8^T Realp(M) P8 = real_expand(M) for the permutation the code builds (obligation C10.P8.layout below, index level).  With them a real
+    structured matrix is handled as RealOf(X), X its quaternion matrix, and the statements
+        HRs[rows, :] = Gc_left @ HRs[rows, :]       HRs[:, cols] = HRs[:, cols] @ Gc_right       Qk[:, cols] = Qk[:, cols] @ Gc_right
+    (rows = cols = the eight real indices of quaternion rows s, s+1) are  X <- E^H X,  X <- X E,  Qk <- Qk E  with E = diag(I_s, M, I).
+    Invariants:  _apply_single_shift:  HRs = RealOf(W^H (X_in - sigma I) W),  Qk = RealOf(W),  W unitary;   main loop: as for the other variants,
+    Q_real = RealOf(Qa), Qa unitary,  Qa^H (P0 A P0^H) Qa - H = D  with D the rotated sum of everything the deflation / clean-up steps zeroed.
+    Result on every exit:  Q unitary and  Q^H A Q - T = D  exactly.  (That the zeroed entries are small is sampled for this variant.)"""
+    from ..values import HMat, fresh_hmat
+    from ..kernels import ALGEBRA
+    from ..interp import SymRange
+    HBm = "quatica/decomp/hessenberg.py::"
+    QS = SC + "quaternion_schur"
+    NEST = QS + ".<_apply_single_shift>"
+    PERM = [(0, 0), (4, 1), (1, 2), (5, 3), (2, 4), (6, 5), (3, 6), (7, 7)]
+
+    class EntryQ:
+        qv_value = True
+
+        def __init__(self, tag):
+            self.w, self.x, self.y, self.z = (SReal.var(f"{tag}.{c}") for c in "wxyz")
+
+        def has_attr(self, name):
+            return name in "wxyz"
+
+    class SMat(HMat):
+        def getitem(self, idx):
+            t = idx if isinstance(idx, tuple) else (idx,)
+            if len(t) == 2 and not isinstance(t[0], slice) and not isinstance(t[1], slice):
+                return EntryQ(cur().fresh_name("entry"))
+            return HMat.getitem(self, idx)
+
+    class Runs:
+        """list(range(a, a + 4)) + list(range(b, b + 4)): index runs"""
+        qv_value = True
+
+        def __init__(self, runs):
+            self.runs = list(runs)
+
+        def __add__(self, o):
+            if isinstance(o, Runs):
+                return Runs(self.runs + o.runs)
+            return NotImplemented
+
+    def quat_rows(runs):
+        """the quaternion row index s when the runs are the eight real indices 4s .. 4s+3, 4s+4 .. 4s+7"""
+        c = cur()
+        if not (isinstance(runs, Runs) and len(runs.runs) == 2 and all(L == 4 for _, L in runs.runs)):
+            raise OutOfReach("index list other than two runs of four")
+        r0, r1 = runs.runs[0][0], runs.runs[1][0]
+        sq = SInt.var(c.fresh_name("s_q"))
+        if c.valid(SBool.mk(z3.And(SInt.lift(r0) % 4 == 0, SInt.lift(r1) == SInt.lift(r0) + 4))) is not True:
+            raise OutOfReach("index runs that are not two consecutive quaternion rows")
+        c.assume(SBool.mk(4 * SInt.lift(sq) == SInt.lift(r0)))
+        return sq
+
+    class RealOf:
+        """a 4r x 4c real matrix that is real_expand(X)"""
+        qv_value = True
+
+        def __init__(self, X):
+            self.X = X
+
+        @property
+        def shape(self):
+            return (4 * self.X.shape[0], 4 * self.X.shape[1])
+
+        def has_attr(self, name):
+            return name in ("shape", "copy")
+
+        def copy(self):
+            return RealOf(HMat(self.X.p))
+
+        def __sub__(self, o):
+            return RealOf(HMat(self.X.p - o.X.p)) if isinstance(o, RealOf) else NotImplemented
+
+        def __add__(self, o):
+            return RealOf(HMat(self.X.p + o.X.p)) if isinstance(o, RealOf) else NotImplemented
+
+        def __rmul__(self, s_):
+            return RealOf(HMat(self.X.p.scale(s_))) if isinstance(s_, (SReal, Fraction, int)) else NotImplemented
+
+        __mul__ = __rmul__
+
+        def __matmul__(self, o):
+            return RealOf(HMat(self.X.p @ o.X.p)) if isinstance(o, RealOf) else NotImplemented
+
+        def getitem(self, idx):
+            if isinstance(idx, tuple) and len(idx) == 2 and isinstance(idx[0], Runs) and idx[1] == slice(None):
+                return View(self, idx[0], "rows")
+            if isinstance(idx, tuple) and len(idx) == 2 and idx[0] == slice(None) and isinstance(idx[1], Runs):
+                return View(self, idx[1], "cols")
+            raise OutOfReach("index pattern on a structured real matrix")
+
+        def setitem(self, idx, val):
+            ok = isinstance(val, Pending) and val.parent is self and isinstance(idx, tuple) and len(idx) == 2
+            if ok and val.side == "rows" and isinstance(idx[0], Runs) and idx[1] == slice(None) and idx[0] is val.runs:
+                self.X = HMat(embedded(val.block, quat_rows(val.runs), self.X.shape[0]) @ self.X.p)
+                return
+            if ok and val.side == "cols" and idx[0] == slice(None) and isinstance(idx[1], Runs) and idx[1] is val.runs:
+                self.X = HMat(self.X.p @ embedded(val.block, quat_rows(val.runs), self.X.shape[1]))
+                return
+            raise OutOfReach("write pattern on a structured real matrix")
+
+    class View:
+        qv_value = True
+
+        def __init__(self, parent, runs, side):
+            self.parent, self.runs, self.side = parent, runs, side
+
+        def __matmul__(self, o):
+            if self.side == "cols" and isinstance(o, Block8):
+                return Pending(self.parent, self.runs, "cols", o.M)
+            return NotImplemented
+
+        def __rmatmul__(self, o):
+            if self.side == "rows" and isinstance(o, Block8):
+                return Pending(self.parent, self.runs, "rows", o.M)
+            return NotImplemented
+
+    class Pending:
+        qv_value = True
+
+        def __init__(self, parent, runs, side, block):
+            self.parent, self.runs, self.side, self.block = parent, runs, side, block
+
+    class Block8:
+        """real_expand(M) for a 2 x 2 quaternion matrix M (interleaved layout)"""
+        qv_value = True
+
+        def __init__(self, M):
+            self.M = M
+
+        def __matmul__(self, o):
+            if isinstance(o, View):
+                return o.__rmatmul__(self)
+            return NotImplemented
+
+    class Giv:
+        """result of ggivens: Realp(M), component-blocked"""
+        qv_value = True
+
+        def __init__(self, M):
+            self.M = M
+
+        def has_attr(self, name):
+            return name == "T"
+
+        @property
+        def T(self):
+            return Giv(HMat(self.M.p.star))          # Realp(M)^T = Realp(M^H)  (C02)
+
+    class Perm8:
+        qv_value = True
+
+        def __init__(self, entries=None, transposed=False):
+            self.entries, self.transposed = entries if entries is not None else {}, transposed
+            self.shape = (8, 8)
+
+        def has_attr(self, name):
+            return name in ("T", "shape")
+
+        def setitem(self, idx, val):
+            if not (isinstance(idx, tuple) and all(isinstance(i, int) for i in idx) and val in (1, 1.0, Fraction(1))):
+                raise OutOfReach("write into the 8 x 8 permutation other than a constant 1 at a constant position")
+            self.entries[idx] = 1
+
+        @property
+        def T(self):
+            return Perm8(self.entries, not self.transposed)
+
+        def standard(self):
+            return self.entries == {(d, s_): 1 for s_, d in PERM}
+
+        def __matmul__(self, o):
+            if isinstance(o, Giv) and self.transposed and self.standard():
+                return ("P8T.G", o)
+            return NotImplemented
+
+    class Half:
+        pass
+
+    def matmul_hook(l, r):
+        return None
+
+    def embedded(M, s_idx, n):
+        """diag(I_s, M, I) for the unitary 2 x 2 block M; the block for M^H is the conjugate transpose of the block for M"""
+        c = cur()
+        memo = c.ghost.setdefault("embedded", {})
+        w = M.p.t
+        if len(w) != 1:
+            raise OutOfReach("rotation block that is not an atom or its conjugate transpose")
+        (word, coef), = w.items()
+        if len(word) != 1 or not (isinstance(coef, Fraction) and coef == 1):
+            raise OutOfReach("rotation block that is not an atom or its conjugate transpose")
+        name, star = word[0]
+        key = (name, str(z3.simplify(SInt.lift(s_idx))))
+        # the same quaternion row index may be named by different (equal) terms: unify through the solver
+        for (nm, _k), (sv, at) in list(memo.items()):
+            if nm == name and c.valid(SBool.mk(SInt.lift(sv) == SInt.lift(s_idx))) is True:
+                return at.star if star else at
+        c.require("index.range", sand(SBool.mk(SInt.lift(s_idx) >= 0), SBool.mk(SInt.lift(s_idx) + 1 < SInt.lift(n))), "quaternion rows s, s+1 inside the matrix")
+        at = NC.atom(Atom(c.fresh_name("Emb"), n, n, "orth", alg="H"))
+        memo[key] = (s_idx, at)
+        return at.star if star else at
+
+    # ---- contracts and library pieces
+    def k_hessenbergize(I, args, kwargs):
+        (A,) = args
+        n = A.shape[0]
+        P0 = HMat(NC.atom(Atom("P0", n, n, "orth", alg="H")))
+        B = HMat(P0.p @ A.p @ P0.p.star)
+        cur().ghost["hess"] = dict(A=A, P0=P0, B=B, n=n)
+        return P0, B
+
+    def k_check(I, args, kwargs):
+        (Hm,) = args
+        E0 = fresh_hmat(cur().fresh_name("Echk"), Hm.shape[0], Hm.shape[1])
+        cur().ghost.setdefault("zeroed", []).append(E0)
+        cur().ghost["E_last_check"] = E0
+        return SMat(Hm.p - E0.p)
+
+    def k_expand(I, args, kwargs):
+        (X,) = args
+        if not isinstance(X, HMat):
+            raise OutOfReach("real_expand of a non-matrix")
+        return RealOf(HMat(X.p))
+
+    def k_contract(I, args, kwargs):
+        R, m_, n_ = args
+        if not isinstance(R, RealOf):
+            raise OutOfReach("real_contract of a matrix that is not known to be structured")
+        ncm.dims_equal(R.X.shape[0], m_, "real_contract.rows")
+        ncm.dims_equal(R.X.shape[1], n_, "real_contract.cols")
+        return SMat(R.X.p)
+
+    def k_ggivens(I, args, kwargs):
+        return Giv(HMat(NC.atom(Atom(cur().fresh_name("Mg"), 2, 2, "orth", alg="H"))))
+
+    def k_abs(I, args, kwargs):
+        v = SReal.var(cur().fresh_name("abs"))
+        cur().assume(v >= 0)
+        return v
+
+    def k_lowmax(I, args, kwargs):
+        v = SReal.var(cur().fresh_name("lowmax"))
+        cur().assume(v >= 0)
+        return v
+
+    class EvalVec:
+        qv_value = True
+
+        def __init__(self, vals):
+            self.vals = vals
+            self.shape = (len(vals),)
+
+        def has_attr(self, name):
+            return name == "shape"
+
+        def getitem(self, i):
+            return self.vals[i]
+
+    def eigvals(Bm):
+        from ..idx import CScal
+        c = cur()
+        return EvalVec([CScal(SReal.var(c.fresh_name("ev_re")), SReal.var(c.fresh_name("ev_im"))) for _ in range(2)])
+
+    def np_real(x):
+        if isinstance(x, EvalVec):
+            return EvalVec([v.re for v in x.vals])
+        from ..idx import CScal
+        if isinstance(x, CScal):
+            return x.re
+        return x
+
+    class Scratch:
+        qv_value = True
+
+        def __init__(self, shape):
+            self.shape = tuple(shape)
+
+        def has_attr(self, name):
+            return name == "shape"
+
+    def np_array(x, dtype=None):
+        return Scratch((len(x),) if isinstance(x, list) else ())
+
+    def alloc(what, shape, dtype):
+        c = cur()
+        shp = shape if isinstance(shape, tuple) else (shape,)
+        n = c.ghost.get("hess", {}).get("n")
+        if what == "eye" and n is not None and c.valid(SBool.mk(SInt.lift(shp[0]) == 4 * SInt.lift(n))) is True:
+            return RealOf(HMat(NC.eye(n)))
+        if what in ("zeros", "empty") and len(shp) == 2 and shp == (8, 8):
+            return Perm8()
+        return None
+
+    lib = Library("nc")
+    lib.qmode = "H"
+    lib.alloc_hooks.append(alloc)
+    lib.np.table["linalg"].table["eigvals"] = eigvals
+    lib.np.table["real"] = np_real
+    lib.np.table["array"] = np_array
+    orig_builtins = lib._builtins
+
+    def patched(interp):
+        t = dict(orig_builtins(interp))
+        old_list = t["list"]
+
+        def b_list(x=()):
+            if isinstance(x, SymRange):
+                L = z3.simplify(SInt.lift(x.stop) - SInt.lift(x.start)) if not (isinstance(x.start, int) and isinstance(x.stop, int)) else None
+                if L is not None and z3.is_int_value(L) and x.step == 1:
+                    return Runs([(x.start, L.as_long())])
+                raise OutOfReach("list(range(...)) of symbolic length")
+            return old_list(x)
+        t["list"] = b_list
+        return t
+    lib._builtins = patched
+
+    # the interpreter evaluates  P8.T @ G.T @ P8  left to right:  (P8.T @ G.T) @ P8
+    class PG:
+        qv_value = True
+
+        def __init__(self, giv):
+            self.giv = giv
+
+        def __matmul__(self, o):
+            if isinstance(o, Perm8) and not o.transposed and o.standard():
+                return Block8(self.giv.M)                   # P8^T Realp(M) P8 = real_expand(M): obligation C10.P8.layout
+            return NotImplemented
+    Perm8.__matmul__ = lambda self, o: PG(o) if (isinstance(o, Giv) and self.transposed and self.standard()) else NotImplemented
+
+    class Sweep(LoopRule):
+        """_apply_single_shift, for s in range(0, m_sz - 1):  HRs = RealOf(W^H Xs W),  Qk = RealOf(W),  W unitary  (Xs = the shifted input)"""
+        modifies = ("HRs", "Qk")
+
+        def check(self, fr, phase):
+            c = cur()
+            X0 = c.ghost["shift_head"]
+            Hs, Qk = fr.vars.get("HRs"), fr.vars.get("Qk")
+            rec = c.ghost.setdefault("emit", [])
+            if not (isinstance(Hs, RealOf) and isinstance(Qk, RealOf)):
+                rec.append((f"shift_sweep.{phase}.state_is_structured", smt.REFUTED, "syntactic", 0.0, None))
+                return
+            W = Qk.X.p
+            st1 = ncm.nc_equal_obligation(W.star @ W, NC.eye(W.cols), c.hyps())[0]
+            st2 = ncm.nc_equal_obligation(Hs.X.p, W.star @ X0.p @ W, c.hyps())[0]
+            rec.append((f"shift_sweep.{phase}.Qk_unitary", st1, "normal-form", 0.0, None))
+            rec.append((f"shift_sweep.{phase}.HRs_is_QkH_X_Qk", st2, "normal-form", 0.0, None))
+
+        def establish(self, it, fr, start):
+            cur().ghost["shift_head"] = HMat(fr.vars["HRs"].X.p)
+            self.check(fr, "establish")
+
+        def havoc(self, it, fr, k):
+            c = cur()
+            X0 = c.ghost["shift_head"]
+            n = X0.shape[0]
+            W = NC.atom(Atom(c.fresh_name("Wk"), n, n, "orth", alg="H"))
+            fr.vars["HRs"] = RealOf(HMat(W.star @ X0.p @ W))
+            fr.vars["Qk"] = RealOf(HMat(W))
+
+        def preserve(self, it, fr, k):
+            self.check(fr, "preserve")
+
+    class Zeroing(LoopRule):
+        """a loop that only sets entries of one quaternion matrix to zero (and keeps bookkeeping scalars / lists):  X - E"""
+        skip_body = True
+
+        def __init__(self, target, extra=()):
+            self.target = target
+            self.modifies = (target,) + tuple(extra)
+            self.extra = extra
+
+        def havoc(self, it, fr, k):
+            c = cur()
+            Xm = fr.vars[self.target]
+            E = fresh_hmat(c.fresh_name("Ez"), Xm.shape[0], Xm.shape[1])
+            fr.vars[self.target] = SMat(Xm.p - E.p)
+            c.ghost.setdefault("zeroed_now", []).append(E)
+            for nm in self.extra:
+                if nm == "deflated_idx":
+                    L = SInt.var(c.fresh_name("n_defl"))
+                    c.assume(L >= 0)
+                    fr.vars[nm] = SymList(L, "deflated_idx", entry=lambda j: SInt.var(f"defl[{SInt.lift(j)}]"))
+
+    class Shrink(LoopRule):
+        skip_body = True
+        modifies = ("m_active",)
+
+        def havoc(self, it, fr, k):
+            c = cur()
+            m2 = SInt.var(c.fresh_name("m_active"))
+            c.assume(sand(m2 >= 1, m2 <= fr.vars["m_active"]))
+            fr.vars["m_active"] = m2
+
+    class MaxLoop(LoopRule):
+        skip_body = True
+        modifies = ("subdiag_norm",)
+
+        def havoc(self, it, fr, k):
+            v = SReal.var(cur().fresh_name("subdiag_norm"))
+            cur().assume(v >= 0)
+            fr.vars["subdiag_norm"] = v
+
+    class MainR(LoopRule):
+        modifies = ("HR", "Q_real", "H", "m_active", "k", "prev_max_sub", "stagnation_count", "diag", "sigma")
+
+        def establish(self, it, fr, start):
+            c = cur()
+            g = c.ghost
+            B = g["hess"]["B"]
+            HR, Qr = fr.vars["HR"], fr.vars["Q_real"]
+            ok = isinstance(HR, RealOf) and isinstance(Qr, RealOf)
+            st = ncm.nc_equal_obligation(Qr.X.p.star @ Qr.X.p, NC.eye(g["hess"]["n"]), c.hyps())[0] if ok else smt.REFUTED
+            g.setdefault("emit", []).append(("main.establish.Q_real_is_a_structured_unitary", st, "normal-form", 0.0, None))
+            g["D_entry"] = HMat(Qr.X.p.star @ B.p @ Qr.X.p - HR.X.p) if ok else None
+
+        def havoc(self, it, fr, k):
+            c = cur()
+            g = c.ghost
+            n, B = g["hess"]["n"], g["hess"]["B"]
+            Qa = HMat(NC.atom(Atom(c.fresh_name("Qa"), n, n, "orth", alg="H")))
+            D = fresh_hmat(c.fresh_name("D"), n, n)
+            g["Qa"], g["D"] = Qa, D
+            fr.vars["Q_real"] = RealOf(Qa)
+            fr.vars["HR"] = RealOf(HMat(Qa.p.star @ B.p @ Qa.p - D.p))
+            fr.vars["H"] = SMat(Qa.p.star @ B.p @ Qa.p - D.p)
+            ma, kk, sc = SInt.var(c.fresh_name("m_active")), SInt.var(c.fresh_name("k")), SInt.var(c.fresh_name("stagn"))
+            c.assume(sand(ma >= 1, ma <= n, kk >= 0, sc >= 0))
+            fr.vars["m_active"], fr.vars["k"], fr.vars["stagnation_count"] = ma, kk, sc
+            pm = SReal.var(c.fresh_name("prev_max_sub"))
+            c.assume(pm >= 0)
+            fr.vars["prev_max_sub"] = pm
+            fr.vars["sigma"] = SReal.var(c.fresh_name("sigma_prev"))
+            L = SInt.var(c.fresh_name("n_it"))
+            c.assume(L >= 0)
+            fr.vars["diag"] = {"iterations": SymList(L, "iterations"), "converged": False, "iterations_run": 0}
+            g["zeroed_now"] = []
+            g["head_state"] = (Qa, D)
+            g["main_kind"] = g.get("_havoc_kind")
+
+        def preserve(self, it, fr, k):
+            c = cur()
+            g = c.ghost
+            rec = g.setdefault("emit", [])
+            B, (Qa, D) = g["hess"]["B"], g["head_state"]
+            HR, Qr = fr.vars.get("HR"), fr.vars.get("Q_real")
+            if not (isinstance(HR, RealOf) and isinstance(Qr, RealOf)):
+                rec.append(("main.preserve.state_is_structured", smt.REFUTED, "syntactic", 0.0, None))
+                return
+            st1 = ncm.nc_equal_obligation(Qr.X.p.star @ Qr.X.p, NC.eye(g["hess"]["n"]), c.hyps())[0]
+            rec.append(("main.preserve.Q_real_stays_a_structured_unitary", st1, "normal-form", 0.0, None))
+            # the new discrepancy is determined by the old one, the rotation of this pass and what this pass zeroed: Qn = Qa V
+            V = Qa.p.star @ Qr.X.p
+            zs = g.get("zeroed_now", [])
+            # zeroings before the rotation (first deflation loop) are rotated along, those after it (check_hessenberg, second deflation loop) are not
+            pre = zs[0].p if zs else NC.zero(D.shape[0], D.shape[1])
+            post_ = NC.zero(D.shape[0], D.shape[1])
+            for E in zs[1:]:
+                post_ = post_ + E.p
+            if g.get("E_last_check") is not None and g.get("E_last_check_pass") is g.get("E_last_check"):
+                pass
+            chk = g.get("check_in_pass")
+            if chk is not None:
+                post_ = post_ + chk.p
+            Dn = V.star @ (D.p + pre) @ V + post_
+            st2 = ncm.nc_equal_obligation(Qr.X.p.star @ B.p @ Qr.X.p - HR.X.p, Dn, c.hyps())[0]
+            rec.append(("main.preserve.discrepancy_is_rotated_old_discrepancy_plus_this_pass_zeroings", st2, "normal-form", 0.0, None))
+            dg = fr.vars.get("diag")
+            ok = isinstance(dg, dict) and dg.get("converged") is False
+            rec.append(("main.preserve.a_pass_that_does_not_stop_leaves_converged_False", smt.PROVED if ok else smt.REFUTED, "syntactic", 0.0, None))
+
+    def k_check_in_pass(I, args, kwargs):
+        (Hm,) = args
+        E0 = fresh_hmat(cur().fresh_name("Echk"), Hm.shape[0], Hm.shape[1])
+        g = cur().ghost
+        if "head_state" in g:
+            g["check_in_pass"] = E0
+        return SMat(Hm.p - E0.p)
+
+    contracts = dict(ALGEBRA)
+    contracts.update({HBm + "hessenbergize": k_hessenbergize, HBm + "check_hessenberg": k_check_in_pass, U + "real_expand": k_expand, U + "real_contract": k_contract,
+                      U + "ggivens": k_ggivens, SC + "_quat_scalar_abs": k_abs, SC + "_strictly_lower_max": k_lowmax})
+
+    def at(rule, target, it_src):
+        rule.expects = {"target": target, "iter": it_src}
+        return rule
+    rules = {(QS, 2): at(MainR(), None, "k<max_iterandm_active>1"),
+             (QS, 3): at(Zeroing("H", ("deflated_idx",)), "i", "range(1,m_active)"),
+             (QS, 4): at(Shrink(), None, "m_active>1and_quat_scalar_abs(H[m_active-1,m_active-2])<=tol"),
+             (QS, 5): at(MaxLoop(), "i", "range(1,m_active)"),
+             (QS, 7): at(Zeroing("H_tmp"), "i", "range(1,m_active)"),
+             (QS, 9): at(Zeroing("H_final"), "i", "range(n)"),
+             (NEST, 0): at(Sweep(), "s", "range(0,m_sz-1)")}
+    for shift in ("rayleigh", "wilkinson", "double"):
+        def setup(I, ctx, shift=shift):
+            (n,) = dims(ctx, "n")
+            ctx.assume(n >= 1, base=True)
+            A = fresh_hmat("A", n, n)
+            K, tol = SInt.var("max_iter"), SReal.var("tol")
+            ctx.assume(sand(K >= 0, tol >= 0), base=True)
+            return [A], dict(max_iter=K, tol=tol, shift=shift, return_diagnostics=True), (A, n)
+
+        def post(I, ctx, outcome, val, aux):
+            A, n = aux
+            g = ctx.ghost
+            if outcome == "loop_end":
+                return list(g.get("emit", []))
+            if outcome != "return" or not (isinstance(val, tuple) and len(val) == 3 and isinstance(val[0], HMat) and isinstance(val[1], HMat)):
+                return [("returns_Q_T_diagnostics", False)] if outcome == "return" else []
+            Q, T = val[0], val[1]
+            out = list(g.get("emit", [])) + [("returns_Q_T_diagnostics", True)]
+            out.append(("Q_is_unitary", ncm.nc_equal_obligation(Q.p.star @ Q.p, NC.eye(n), ctx.hyps())[0], "normal-form", 0.0, None))
+            # D at the exit: the head state's D (exit through the loop test) or this pass's (exit through the convergence break, which comes after
+            # the first deflation loop and before any rotation), plus the final clean-up
+            zs = g.get("zeroed_now", [])
+            final = zs[-1].p if zs else NC.zero(n, n)
+            if g.get("main_kind") == "generic":
+                D0 = g["head_state"][1].p
+                first = zs[0].p if len(zs) >= 2 else NC.zero(n, n)
+                Dx = D0 + first + final
+            elif g.get("main_kind") == "exhausted":
+                Dx = g["D"].p + final
+            else:
+                Dx = (g["D_entry"].p if g.get("D_entry") is not None else NC.zero(n, n)) + final
+            st, be, secs, wit = ncm.nc_equal_obligation(Q.p.star @ A.p @ Q.p - T.p, Dx, ctx.hyps())
+            out.append(("QH_A_Q_minus_T_is_the_accumulated_zeroings", st, be, secs, ({"words": wit, "phase": g.get("main_kind"), "zeroed": [str(z_.p) for z_ in zs]} if wit else None)))
+            return out
+        cl = ["returns_Q_T_diagnostics", "Q_is_unitary", "QH_A_Q_minus_T_is_the_accumulated_zeroings", "main.establish.Q_real_is_a_structured_unitary",
+              "shift_sweep.establish.Qk_unitary", "shift_sweep.establish.HRs_is_QkH_X_Qk", "shift_sweep.preserve.Qk_unitary", "shift_sweep.preserve.HRs_is_QkH_X_Qk",
+              "main.preserve.Q_real_stays_a_structured_unitary", "main.preserve.discrepancy_is_rotated_old_discrepancy_plus_this_pass_zeroings",
+              "main.preserve.a_pass_that_does_not_stop_leaves_converged_False"]
+        run_case(rep, P, QS, f"iteration.shift_{shift}", setup, post, lib=lib, contracts=contracts, loop_rules=rules, clauses=cl, replay=replay_variants, timeout_s=30,
+                 loop_end=True, max_paths=1500)
+
+
+def p8_layout(rep: Report):
+    """P8^T Realp(M) P8 = real_expand(M) for every 2 x 2 quaternion matrix M and the permutation quaternion_schur builds
+    (P8[dst, src] = 1 for the pairs below): both real functions are executed on symbolic components and compared entry by entry."""
+    PERM = [(0, 0), (4, 1), (1, 2), (5, 3), (2, 4), (6, 5), (3, 6), (7, 7)]
+    dst = {s_: d for s_, d in PERM}
+
+    def setup(I, ctx):
+        comps = [ix.input_array(f"M{c}", [2, 2]) for c in range(4)]
+        return comps, {}, comps
+
+    def post(I, ctx, outcome, val, comps):
+        if outcome != "return" or not isinstance(val, ix.IArr) or tuple(val.vshape) != (8, 8):
+            return [("Realp_of_2x2_components_is_8x8", False)]
+        Mq = ix.IArr.from_fn([2, 2], lambda vi: ix.QScal(*[comps[c].at(vi[0], vi[1]) for c in range(4)]), quat=True)
+        RE = I.call_qual(U + "real_expand", Mq)
+        ok = isinstance(RE, ix.IArr) and tuple(RE.vshape) == (8, 8)
+        out = [("Realp_of_2x2_components_is_8x8", True), ("real_expand_of_2x2_is_8x8", ok)]
+        if ok:
+            conds = [ix.scal_eq(RE.at(a, b), val.at(dst[a], dst[b])) for a in range(8) for b in range(8)]
+            out.append(("P8T_Realp_P8_equals_real_expand", sand(*conds)))
+            v = smt.prove(ctx.hyps(), sand(*[ix.scal_eq(RE.at(a, b), val.at(a, b)) for a in range(8) for b in range(8)]).z, 10)
+            rep.canary("C10.canary.P8_layout_without_the_permutation", v.status == smt.REFUTED)
+        return out
+    run_case(rep, P, U + "Realp", "P8.layout", setup, post, lib=Library("idx"), clauses=["Realp_of_2x2_components_is_8x8", "real_expand_of_2x2_is_8x8", "P8T_Realp_P8_equals_real_expand"],
+             scope="all-shapes", replay=replay_variants, timeout_s=30, site_obligations=False)
+    # the permutation in the code is the one above (read from the source on this run)
+    m_, node = rep.repo.function(SC + "quaternion_schur")
+    found = None
+    for n_ in ast.walk(node):
+        if isinstance(n_, ast.For) and isinstance(n_.iter, ast.List) and all(isinstance(e, ast.Tuple) for e in n_.iter.elts):
+            try:
+                found = [tuple(ast.literal_eval(e)) for e in n_.iter.elts]
+            except Exception:
+                found = None
+            break
+    rep.add(Obligation(f"{P}.P8.layout.permutation_in_the_code_is_the_proved_one", SC + "quaternion_schur", "all-shapes", smt.PROVED if found == PERM else smt.UNDECIDED,
+                       "syntactic", 0.0, None if found == PERM else {"found": found}))
+
+
 def check_schur(fn, A4, budget, tol, hermitian_spectrum=None):
     from .. import runtime as rt
     n = A4.shape[0]
@@ -1131,7 +1716,7 @@ def bounded(rep: Report, tier, seed):
 def run(tier, seed):
     rep = Report(P, tier, seed, "exploration")
     rep.assumptions += [
-        "the iteration body of the real-expansion variant quaternion_schur is not executed by the engine (its flag and composition obligations hold for an arbitrary state left by the loop; the similarity of its iterate is decided by the bounded stand-in); the four quaternion-domain variants are proved through their whole iteration (householder_matrix unitary by its C09 contract; the accumulated deflation zeroings D are bounded entrywise by the deflation test - proved for the pure variants, sampled for the windowed ones - and their norm is not summed up)",
+        "all five variants are proved through their whole iteration at matrix level (householder_matrix / ggivens unitary by their C09 / C16 contracts, real_expand a *-homomorphism with real_contract its inverse by C02, numpy fancy-index block updates X[idx, :] = B @ X[idx, :] read as multiplication by the embedded block); the accumulated zeroings D are bounded entrywise by the deflation tests - proved for the pure variants, sampled for the others - and their norm is not summed up",
         "hessenbergize, check_hessenberg, quat_matmat, quat_hermitian, real_expand / real_contract are used through contracts (C09, C01, C02)",
         "floats as reals; 'accuracy governed by the deflation tolerance' is checked with the explicit bound 1e-7 n ||A||",
     ]
@@ -1139,6 +1724,8 @@ def run(tier, seed):
     deductive(rep, tier)
     pure_iteration(rep)
     pure_entry_loops(rep)
+    real_expansion_iteration(rep)
+    p8_layout(rep)
     from ..frame import no_module_state
     no_module_state(rep, P, [SC + n_ for n_ in ("quaternion_schur", "quaternion_schur_pure", "quaternion_schur_pure_implicit", "quaternion_schur_unified", "quaternion_schur_experimental", "_strictly_lower_max")])
     bounded(rep, tier, seed)
